@@ -566,18 +566,32 @@ func (u *Universe) enumerateRegistrations(t *Table) []*Registration {
 			if ffn != nil {
 				r.Closure = ffn
 				cells := map[string]memEntry{}
-				for _, b := range free {
+				for bi, b := range free {
 					sb := stripCT(b)
-					if sb != nil && sb.Op == "alloc" {
-						// a captured variable (Go captures by reference): what the cell holds when start-up is over
-						if me, has := paths[0].Mem[sb.Key()]; has {
-							if cv := stripCT(me.V); cv != nil && (cv.Op == "func" || cv.IsConst()) {
+					if sb != nil && sb.Op == "alloc" && bi < len(ffn.FreeVars) {
+						// a captured variable (Go captures by reference) that holds a function and that the factory only
+						// reads: the constructor it wraps – a constant of the program. Anything else it captured (a
+						// counter, a cache, an object) is state shared between its calls.
+						readOnly := true
+						for _, ref := range *ffn.FreeVars[bi].Referrers() {
+							switch x := ref.(type) {
+							case *ssa.UnOp, *ssa.DebugRef:
+							case *ssa.Store:
+								if x.Addr == ssa.Value(ffn.FreeVars[bi]) {
+									readOnly = false
+								}
+							default:
+								readOnly = false
+							}
+						}
+						if me, has := paths[0].Mem[sb.Key()]; has && readOnly {
+							if cv := stripCT(me.V); cv != nil && cv.Op == "func" {
 								cells[sb.Key()] = me
 								continue
 							}
 						}
 					}
-					if sb == nil || !(sb.Op == "func" || sb.IsConst()) {
+					if sb == nil || sb.Op != "func" {
 						r.CapturesState = true
 					}
 				}
